@@ -340,6 +340,14 @@ def step(ctx, im, marks, l, hist, n, cfg):
                 viol(ctx, l, 'truth-value', hist, n, cfg, got=got, expected=l['res'], which=which,
                      cause='both-zero' if zero else ('other-operand-has-longer-range' if longer else 'other'))
                 return False
+            if im.infinite:
+                # the overlap on the default window (num_sites=None) must at least be defined for every pair of operands
+                try:
+                    first.overlap(second, understood_infinite=True)
+                except TypeError as e:
+                    viol(ctx, l, 'overlap-default-window', hist, n, cfg, error=repr(e), which=which,
+                         cause='other-max_range-unknown' if second.max_range is None else 'other')
+                    return False
         return True
     if op == 'overlap':
         A, B = im.slots['A'], im.slots['B']
@@ -411,6 +419,14 @@ def step(ctx, im, marks, l, hist, n, cfg):
         exp = hm.dense_of_sparse(l['U'])
         if not np.array_equal(got, exp):
             viol(ctx, l, 'propagator', hist, n, cfg, first_differences=hm.first_diffs(got, exp))
+            return False
+        return True
+    if op == 'make_U_I_of_sum':
+        U = (im.slots['A'] + im.slots['B']).make_U_I(g(l['dt']))
+        got = hm.dense_from_mpo(U, cells)
+        exp = hm.dense_of_sparse(l['U'])
+        if not np.array_equal(got, exp):
+            viol(ctx, l, 'propagator', hist, n, cfg, first_differences=hm.first_diffs(got, exp), IdL=str(U.IdL), IdR=str(U.IdR))
             return False
         return True
     if op == 'prefactor':
@@ -528,7 +544,7 @@ def check(ctx):
                'compression methods are checked as relations: |O psi - result|^2 <= reported eps + 1e-8 (no truncation requested)')
     only = ctx.only
     if not only or 'mc' in only:
-        res = run_mc(ctx, 'MPOAlgebra-depth2', 'ConfigsQuick' if quick else 'ConfigsFull', 2, 1 if quick else 0, 6 if quick else 3)
+        res = run_mc(ctx, 'MPOAlgebra-depth2', 'ConfigsMC' if quick else 'ConfigsFull', 2, 1 if quick else 0, 6 if quick else 3)
         runs = [res]
         # is_equal / is_hermitian with the documented default window for an operand of unknown range (L + 2 L sites)
         runs.append(run_mc(ctx, 'MPOAlgebra-window', 'ConfigsBig', 2, 1, 1))
@@ -543,7 +559,7 @@ def check(ctx):
         if missing:
             raise core.MachineryError('actions never taken in the MC runs (vacuous): %r' % missing)
     if not only or 'sim' in only:
-        run_sim(ctx, 'ConfigsQuick' if quick else 'ConfigsFull', 80 if quick else 1500, 6)
+        run_sim(ctx, 'ConfigsQuick' if quick else 'ConfigsFull', 48 if quick else 1500, 6)
     if not only or 'canary' in only:
         run_canary(ctx)
     ctx.exhaustive = False
